@@ -624,6 +624,27 @@ func (e *sysEnv) runSystem(c *sysCase, res *behav.Result) (fails []sysFail, inco
 			fail("GroupBy", "wrong_result", "GroupBy(Rows(f), Rows(g), limit=%d) = %s, expected %s", lim, got, wantStr("GroupBy"))
 		}
 	}
+	// GroupBy with limit and offset: the page of the merged list; two of the six (limit, offset)
+	// pairs per case (all six over the cases)
+	{
+		pages := behav.ToList(place["pages"])
+		h := int(behav.Hash64(mustJSON(owner)+mustJSON(locals)+fmt.Sprint(coord)) % 6)
+		for pi, x := range pages {
+			if len(pages) == 6 && pi != h && pi != (h+3)%6 {
+				continue
+			}
+			pg := behav.ToMap(x)
+			l, o := behav.ToInt(pg["l"]), behav.ToInt(pg["o"])
+			pql := fmt.Sprintf("GroupBy(Rows(f), Rows(g), limit=%d, offset=%d)", l, o)
+			if r, ok := run("GroupByPage", pql); ok {
+				gc, _ := r.([]pilosa.GroupCount)
+				want := specCanon("GroupBy", pg["page"], p)
+				if got := canonGroups(gc, c.G); got != want {
+					fail("GroupByPage", "wrong_result", "%s = %s, expected %s", pql, got, want)
+				}
+			}
+		}
+	}
 	if r, ok := run("Count", "Count(Row(f=1))"); ok {
 		cnt, _ := r.(uint64)
 		if got := fmt.Sprintf("n%d", cnt); got != wantStr("Count") {
